@@ -11,5 +11,19 @@ class FieldData:
         "The value of the header tag VN cannot be edited\n"+
         "For version conversion use to_gfa1 or to_gfa2")
     else:
+      if fieldname == "VN" and value is not None and self.is_connected() \
+          and self._gfa.vlevel > 0:
+        # (as for a header line which is added) the version given in the
+        # header cannot contradict the version of the Gfa
+        version = {"1.0": "gfa1", "2.0": "gfa2"}.get(value)
+        if version is None:
+          raise gfapy.VersionError(
+            "GFA specification version {} not supported".format(value))
+        elif self._gfa.version is None:
+          self._gfa._set_version_from_header(version)
+        elif self._gfa.version != version:
+          raise gfapy.VersionError(
+            "Header tag VN specifies the wrong version ({})\n".format(value)+
+            "Version of the Gfa: {}".format(self._gfa.version))
       super()._set_existing_field(fieldname, value,
                                   set_reference=set_reference)
